@@ -76,10 +76,6 @@ pub open spec fn minv_post(bs: BoundSet, r: Option<Version>) -> bool {
     }
 }
 pub open spec fn lower_excl(b: Bound) -> bool { b matches Bound::Lower(Predicate::Excluding(_)) }
-/// no `patch + 1` on a lower bound can overflow (part of the representation invariant)
-pub open spec fn rpatch_ok(r: Range) -> bool {
-    forall|i: int| 0 <= i < r.0@.len() ==> (bound_version(*(#[trigger] r.0@[i]).lower) matches Some(w) ==> w.patch < 0xffff_ffff_ffff_ffff)
-}
 /// C11: the result satisfies the range and nothing lower does; `None` only when nothing satisfies it
 pub open spec fn rminv_post(a: Range, r: Option<Version>) -> bool {
     match r {
